@@ -1,4 +1,5 @@
 """Generators of points, queries and operation histories (one PRNG, replayable by (seed, index))."""
+import os
 import random
 
 T0 = 1577836800000000          # 2020-01-01T00:00:00Z in microseconds
@@ -98,7 +99,7 @@ class Gen:
                 rhs = ("s", r.choice(MEAS + ["m3", "m", "many", "few", "_"]))
                 return ("S", "meas", path, ("cmp", r.choice(ops), rhs))
             if t < 0.8:
-                return ("S", "meas", path, (r.choice(["match", "search"]), r.randrange(5), r.randrange(2)))
+                return ("S", "meas", path, (r.choice(["match", "search"]), r.randrange(6), r.randrange(2)))
             return ("S", "meas", path, ("user", r.choice([0, 3, 4, 1])))
         if attr == "tags":
             key = r.choice(TAG_KEYS[:3] + ["zz"])
@@ -116,7 +117,7 @@ class Gen:
             if t < 0.7:
                 return ("S", "tags", path, ("exists",))
             if t < 0.9:
-                return ("S", "tags", path, (r.choice(["match", "search"]), r.randrange(5), r.randrange(2)))
+                return ("S", "tags", path, (r.choice(["match", "search"]), r.randrange(6), r.randrange(2)))
             return ("S", "tags", path, ("user", r.choice([0, 3, 3, 4, 1])))
         # fields
         key = r.choice(FIELD_KEYS + ["zz"])
@@ -339,11 +340,12 @@ class Gen:
         r = self.r
         obs = [("index_valid",), ("iter",)]
         k = r.choice(["ooo_batch", "carriers", "bad_batch", "stale_handle", "torn_update", "handle_times", "linebreaks", "zones",
-                      "remove_first", "ooo_then_remove", "nested_not", "reset_then_time", "nan_fields", "epoch", "sparse_write", "sparse_write", "future_untimed", "range_ends", "noop_compose", "substring_names", "same_size", "one_us_late", "mixed_quoting", "far_sorted", "getter_memo", "handle_sorted", "odd_strings", "shared_maps", "hash_twins", "same_count", "redate", "fold_twins", "big_ties", "handle_unset", "same_row_twice"])
+                      "remove_first", "ooo_then_remove", "nested_not", "reset_then_time", "nan_fields", "epoch", "sparse_write", "sparse_write", "future_untimed", "range_ends", "noop_compose", "substring_names", "same_size", "one_us_late", "mixed_quoting", "far_sorted", "getter_memo", "handle_sorted", "odd_strings", "shared_maps", "hash_twins", "same_count", "redate", "fold_twins", "big_ties", "handle_unset", "same_row_twice", "or_not", "noop_match", "minute_marks", "none_name", "merge_rename", "tiny_float_change", "big_ints"])
         pref = self.profile.get("scenario_pref")
         if pref and r.random() < 0.5:
             k = r.choice(pref)
         k = self.profile.get("scenario_force") or k
+        k = os.environ.get("VERIF_SCENARIO") or k          # debugging aid: one scenario in every history that has one
         ops = []
         if k == "ooo_batch":
             # one insert_multiple whose points go backwards inside the batch, then time queries straight away
@@ -783,6 +785,93 @@ class Gen:
                         ("insert", [self.point(a - 1)], None), ("index_valid",),
                         ("count", ("S", "time", [], ("cmp", "<", ("t", a))), None), ("contains", ("S", "time", [], ("cmp", "==", ("t", a - 1))), None),
                         ("count", ("S", "time", [], ("cmp", "<=", ("t", a - 1))), None), ("get_timestamps", None)]
+        elif k == "or_not":
+            # disjunctions and conjunctions with ONE negated operand, in both operand orders, answered by the index
+            pts = self.points_batch(r.choice([6, 8]), in_order=True)
+            ops += [("insert", pts, None, "multiple")] + obs
+            atom = lambda: self.simple(r.choice(["tags", "tags", "meas", "time"]))
+            for _ in range(4):
+                a, b = atom(), atom()
+                for q in [("or", a, ("not", b)), ("or", ("not", b), a), ("and", a, ("not", b)), ("or", ("not", a), ("not", b)), ("not", ("or", a, ("not", b)))]:
+                    ops.append(r.choice([("count", q, None), ("search", q, None, False), ("count", q, self.mfilter()), ("select", ["time"], q, None)]))
+        elif k == "noop_match":
+            # an index-answered update that matches SOME rows, the first of which it leaves as they are while later ones change
+            pts = self.points_batch(r.choice([5, 6, 8]), in_order=True)
+            for i, p in enumerate(pts):
+                p["time"] = T0 + i * SEC
+                p["tags"]["grp"] = "g" if i >= 1 else "h"
+                p["tags"]["seen"] = "1" if i in (1, 2) else "0"
+            mid = r.choice([1, 2])
+            ops += [("insert", pts, None, "multiple")] + obs
+            if r.random() < 0.5:
+                ops += [("update", ("S", "tags", [("k", "grp")], ("cmp", "==", ("s", "g"))), {"tags": ("static", {"seen": "1"})}, None)] + obs + [("all", False)]
+            ops += [("update", ("S", "time", [], ("cmp", ">=", ("t", pts[mid]["time"]))), {"time": r.choice([("static", pts[mid]["time"]), ("call", 0)])}, None)] + obs
+            ops += [("all", False), ("get_timestamps", None), ("count", ("S", "time", [], ("cmp", "==", ("t", pts[mid]["time"]))), None)]
+        elif k == "minute_marks":
+            # instants on a full minute / a full hour that still carry microseconds, written with compact key prefixes
+            pts = []
+            for i in range(r.choice([4, 5])):
+                base = T0 + r.choice([60, 3600, 86400]) * (i + 1) * SEC
+                pts.append(self.point(base + r.choice([1, 999999, 500000, 0, 17])))
+            pts.sort(key=lambda p: p["time"])
+            ops += [("insert", pts[:2], None, "multiple", "compact"), ("insert", pts[2:], None, "multiple", "compact")] + self.file_obs() + obs + [("all", False), ("get_timestamps", None)]
+            for p in pts[:3]:
+                ops.append(("count", ("S", "time", [], ("cmp", "==", ("t", p["time"]))), None))
+            ops += [(("reopen", r.random() < 0.5) if csv else ("reindex",)), ("all", False), ("get_timestamps", None)]
+            for p in pts[:3]:
+                ops.append(("count", ("S", "time", [], ("cmp", r.choice(["==", "<=", ">"]), ("t", p["time"]))), None))
+        elif k == "none_name":
+            # a measurement literally named like the placeholder the file format uses for an EMPTY name: it is a name like any other
+            pts = self.points_batch(r.choice([4, 6]), in_order=True)
+            for i, p in enumerate(pts):
+                p["meas"] = ["_none", "m1", "_none", "none"][i % 4]
+            gets = lambda name: [("handle", name, ("len",)), ("handle", name, ("count", ("noop", "tags"))), ("handle", name, ("all", False)), ("count", ("noop", "tags"), name),
+                                 ("get_tag_keys", name), ("get_timestamps", name), ("handle", name, ("search", self.simple("tags"), False))]
+            ops += [("insert", pts, None, "multiple")] + obs + gets("_none") + [("get_measurements",)]
+            ops += [(("reopen", r.random() < 0.5) if csv else ("reindex",))] + gets("_none") + gets("m1") + [("get_measurements",), ("all", False)]
+            ops += [("handle", "_none", ("update_all", {"tags": ("static", {"seen": "1"})}))] + obs + gets("_none")
+        elif k == "merge_rename":
+            # every point of one measurement is renamed - through its handle, by a plain string and nothing else - into a measurement that already has points
+            pts = self.points_batch(r.choice([4, 6]), in_order=True)
+            for i, p in enumerate(pts):
+                p["meas"] = ["m1", "m2"][i % 2]
+            gets = lambda name: [("handle", name, ("len",)), ("handle", name, ("count", ("noop", "tags"))), ("handle", name, ("all", False)), ("get_timestamps", name),
+                                 ("handle", name, ("get_tag_keys",)), ("count", self.simple("tags"), name)]
+            ops += [("insert", pts, None, "multiple")] + obs + [("handle", "m1", ("update_all", {"meas": ("static", "m2")}))] + obs + gets("m2") + gets("m1") + [("get_measurements",), ("len",)]
+            ops += [("handle", "m2", ("update", self.simple("tags"), {"fields": ("static", {"z": 1})}))] + obs + gets("m2")
+        elif k == "tiny_float_change":
+            # a large float field corrected by a tiny relative amount: the content changed, the count must say so and the new value must be stored
+            pts = self.points_batch(r.choice([3, 4]), in_order=True)
+            for i, p in enumerate(pts):
+                p["fields"]["epoch"] = 1700000000.0 + i
+                p["fields"]["cal"] = 1000.0
+                p["tags"]["grp"] = "g" if i else "h"
+            ops += [("insert", pts, None, "multiple")] + obs
+            q = ("S", "tags", [("k", "grp")], ("cmp", "==", ("s", "g")))
+            ops += [("update", q, {"fields": ("static", {"epoch": 1700000001.0 + len(pts)})}, None)] + obs + [("all", False)]
+            ops += [("update_all", {"fields": ("static", {"cal": 1000.0000001})})] + obs + [("all", False), ("get_field_values", "cal", None)]
+            ops += [("update_all", {"fields": ("static", {"cal": 1000.0000001})})] + obs
+        elif k == "big_ints":
+            # integer field values a double cannot tell apart (in memory; on CSV, which stores text read back as float, values a double holds exactly)
+            base = 2 ** 52 if csv else 2 ** 62
+            pts = self.points_batch(r.choice([4, 5]), in_order=True)
+            for i, p in enumerate(pts):
+                p["fields"]["trace"] = base + 2 * i if not csv else base + i
+                p["tags"]["grp"] = "g" if i else "h"
+            ops += [("insert", pts, None, "multiple")] + obs
+            fq = lambda c, v: ("S", "fields", [("k", "trace")], ("cmp", c, ("n", v)))
+            grp = ("S", "tags", [("k", "grp")], ("cmp", "==", ("s", "g")))
+            step = 1 if csv else 2
+            # the write first (a proper subset for the index to name), the reads after it
+            w = r.choice(["update", "remove", "reads"])
+            if w == "update":
+                ops += [("update", ("and", fq("==", base + step), grp), {"tags": ("static", {"hit": "1"})}, None)] + obs + [("all", False)]
+            elif w == "remove":
+                ops += [("remove", ("and", grp, fq("==", base + 2 * step)), None)] + obs + [("all", False)]
+            for c, v in [("==", base + step), ("==", base), (">", base), ("!=", base + step), ("<", base + 2 * step)]:
+                ops.append(r.choice([("count", fq(c, v), None), ("search", fq(c, v), None, False), ("count", ("and", grp, fq(c, v)), None)]))
+            ops += [("update", ("and", grp, fq("==", base + step)), {"tags": ("static", {"hit": "2"})}, None)] + obs + [("all", False)]
+            ops += [("remove", fq("==", base + step), None)] + obs + [("count", ("noop", "tags"), None), ("get_field_values", "trace", None)]
         elif k == "mixed_quoting":
             # a file written over several sessions with different (read-compatible) quoting policies - the driver reopens with QUOTE_ALL every other
             # time: then the NEWEST rows are removed through the index, the rest re-serialised
@@ -820,7 +909,8 @@ class Gen:
             # prefix styles, read back after a reopen, after a rewrite (update) and after another reopen
             pts = self.points_batch(r.choice([3, 4]), in_order=True)
             okeys = ["t_zone", "f_out", "_tag_a", "_field_b", "t", "f", "tt", "ft", "t_", "f_", " k", "k ", "_", "t_t_x", "_tag_t_y", "cle\u0301", "\u212b"]
-            ovals = [" x", "x ", " ", "  a  b ", "\tq", "'", "''", '"', "#c", " _none", "_none ", "t_v", "f_v", "=1", "\\", "C:\\temp\\new", "a\\", "a\\,b", "\\\"q"]
+            ovals = [" x", "x ", " ", "  a  b ", "\tq", "'", "''", '"', "#c", " _none", "_none ", "t_v", "f_v", "=1", "\\", "C:\\temp\\new", "a\\", "a\\,b", "\\\"q",
+                     "__none", "___none", "\\_none", "_None", "a\n#b", "a\r\n# b", "\\n", "C:\\new\\readme", "\\r?\\n"]
             for p in pts:
                 for key in r.sample(okeys, r.choice([1, 2, 3])):
                     p["tags"][key] = r.choice(ovals)
@@ -867,7 +957,7 @@ class Gen:
     def history(self, csv, n_ops=None):
         r = self.r
         ops = []
-        if r.random() < self.profile.get("p_scenario", 0.35):
+        if r.random() < (1.0 if os.environ.get("VERIF_SCENARIO") else self.profile.get("p_scenario", 0.35)):
             self.ids = 0
             self.no_tail = False
             ops = self.scenario(csv)
